@@ -8,7 +8,7 @@ COQ_TARGETS = ["Properties/C09.vo", "Model/Dispatch.vo"]
 THEOREMS = ["C09_source_flags", "C09_sketch_step", "C09_opt_densify", "C09_rev_densify", "C09_opt_terminates",
             "C09_empty_reports", "C09_empty_never_fills", "C09_holds_streamed"]
 AXIOMS_ALLOWED = []
-TRANSLATORS = [("flags", sklib.translate_flags)]
+TRANSLATORS = [("flags-dens", sklib.translate_flags_dens)]
 TRUSTED_BASE = [
     "hand-written model coq/Model/DensMinHash.v of src/densminhash.rs (sketch, both densify loops, end_sketch, sketch_slice, reinit); "
     "compared each run with the real sketchers on hsketch, values, init, nb_empty (hook verif_state) over generated histories",
